@@ -9,7 +9,9 @@ VERIF = os.path.dirname(os.path.dirname(os.path.abspath(__file__)))
 # property -> (design_ref, level text, level note, technique) for every claimed check
 TB = ("Trusted: Lean 4.33 kernel; axioms propext/Classical.choice/Quot.sound only (audited by #print axioms on every run; "
       "no sorry/native_decide/bv_decide); Lean compiler for the model driver; the hand-written model is tied to the C code "
-      "only by the correspondence check (differential execution on every run, exact internal state), whose scopes are finite; "
+      "(a) by the correspondence check (differential execution on every run, exact internal state), whose scopes are finite, "
+      "and (b) by translator ties (Lean definitions regenerated from the clang AST of the current source on every run and "
+      "kernel-checked equal to the model), which trust the translator's reading of the AST and its primitive vocabulary; "
       "gcc/glibc/ASan; the C harness's abstraction functions and the script generators.")
 
 CLAIMED = {
